@@ -28,7 +28,7 @@ use inst::*;
 use std::io::Write;
 use std::path::{Path, PathBuf};
 
-fn rt() -> tokio::runtime::Runtime {
+pub fn rt() -> tokio::runtime::Runtime {
     tokio::runtime::Builder::new_multi_thread()
         .worker_threads(2)
         .enable_all()
@@ -341,29 +341,46 @@ fn run(a: &Args) {
         }
         cases.last_mut().unwrap().push(l);
     }
-    for (ci, case) in cases.iter().enumerate() {
-        let is16 = case[0].starts_with("case ") && case[0].contains("prop=c16");
-        let r = if !case[0].starts_with("case ") {
-            CaseOut {
-                lines: case.iter().map(|_| "bad-op".to_string()).collect(),
-                oracle: vec![],
+    let is16 = |c: &Vec<String>| c[0].starts_with("case ") && c[0].contains("prop=c16");
+    let mut ci = 0;
+    while ci < cases.len() {
+        let mut results: Vec<CaseOut> = vec![];
+        let first = ci;
+        if is16(&cases[ci]) {
+            // consecutive C16 cases share one instance
+            let mut j = ci;
+            while j < cases.len() && is16(&cases[j]) {
+                j += 1;
             }
-        } else if is16 {
-            c16::run_case(case, &work, ci, &mut stats)
+            let group: Vec<&Vec<String>> = cases[ci..j].iter().collect();
+            results = c16::run_cases(&group, &work, ci, &mut stats);
+            ci = j;
         } else {
-            run_case13(case, &work, ci, &mut stats)
-        };
-        stats.inc("cases");
-        let mut ls = r.lines;
-        ls.truncate(case.len());
-        while ls.len() < case.len() {
-            ls.push("harness-error missing-line".into());
+            let case = &cases[ci];
+            results.push(if !case[0].starts_with("case ") {
+                CaseOut {
+                    lines: case.iter().map(|_| "bad-op".to_string()).collect(),
+                    oracle: vec![],
+                }
+            } else {
+                run_case13(case, &work, ci, &mut stats)
+            });
+            ci += 1;
         }
-        for l in ls {
-            writeln!(out, "{}", l).unwrap();
-        }
-        for (sig, detail) in r.oracle {
-            oracle_lines.push(format!("{} {} {}", ci, sig, detail));
+        for (k, r) in results.into_iter().enumerate() {
+            let case = &cases[first + k];
+            stats.inc("cases");
+            let mut ls = r.lines;
+            ls.truncate(case.len());
+            while ls.len() < case.len() {
+                ls.push("harness-error missing-line".into());
+            }
+            for l in ls {
+                writeln!(out, "{}", l).unwrap();
+            }
+            for (sig, detail) in r.oracle {
+                oracle_lines.push(format!("{} {} {}", first + k, sig, detail));
+            }
         }
     }
     out.flush().unwrap();
